@@ -193,6 +193,39 @@ class Repo(object):
                 cache[(relpath, qual)] = r2.fn(relpath, qual, raw=True) if r2 is not None else None
             if cache[(relpath, qual)] is not None:
                 return cache[(relpath, qual)]
+        if not raw and qual == 'series_to_str' and relpath.endswith('utils/converter.py'):
+            # delivery of the converted column factored into a private helper: analysed inlined
+            cache = self.__dict__.setdefault('_norm_conv', {})
+            if (relpath, qual) not in cache:
+                cache[(relpath, qual)] = None
+                from .normalise import normalised_repo
+                try:
+                    def deliverer(nm):
+                        h = m.funcs.get(nm)
+                        if h is None or not nm.startswith('_'):
+                            return False
+                        body = [x for x in h.node.body if not (isinstance(x, ast.Expr) and isinstance(x.value, ast.Constant))]
+                        only_checks = all(isinstance(x, ast.If) and not x.orelse and all(isinstance(y, ast.Raise) for y in x.body)
+                                          for x in body)
+                        return not only_checks
+                    r2 = normalised_repo(self, relpath, qual, only=deliverer)
+                    cache[(relpath, qual)] = r2.fn(relpath, qual, raw=True) if r2 is not None else None
+                except AnalysisError:
+                    cache[(relpath, qual)] = None
+            if cache[(relpath, qual)] is not None:
+                return cache[(relpath, qual)]
+        if not raw and qual.endswith('.find_candidates') and '/filter/' in relpath:
+            # a candidate set written as set(chain.from_iterable(<generator>)) is analysed as the loop it stands for
+            cache = self.__dict__.setdefault('_norm_fc', {})
+            if (relpath, qual) not in cache:
+                cache[(relpath, qual)] = None
+                from .normalise import loopified
+                try:
+                    cache[(relpath, qual)] = loopified(self, relpath, qual, raw=True)
+                except AnalysisError:
+                    cache[(relpath, qual)] = None
+            if cache[(relpath, qual)] is not None:
+                return cache[(relpath, qual)]
         return f
 
     def has_fn(self, relpath, qual):
@@ -232,6 +265,26 @@ class Repo(object):
                     return self.lookup_name(tgt, imp[2])
         if name in module.globals:
             return ('global', module, name)
+        return None
+
+    def namedtuple_fields(self, module, name, func=None):
+        """field names when `name` denotes a namedtuple class (module-level, imported, or bound once inside func)"""
+        expr = None
+        r = self.lookup_name(module, name)
+        if isinstance(r, tuple) and r[0] == 'global':
+            expr = r[1].globals.get(r[2])
+        if expr is None and func is not None:
+            vals = [n.value for n in ast.walk(func.node) if isinstance(n, ast.Assign) and len(n.targets) == 1
+                    and isinstance(n.targets[0], ast.Name) and n.targets[0].id == name]
+            if len(vals) == 1:
+                expr = vals[0]
+        if not (isinstance(expr, ast.Call) and U(expr.func).split('.')[-1] == 'namedtuple' and len(expr.args) >= 2):
+            return None
+        spec = expr.args[1]
+        if isinstance(spec, ast.Constant) and isinstance(spec.value, str):
+            return spec.value.replace(',', ' ').split()
+        if isinstance(spec, (ast.List, ast.Tuple)) and all(isinstance(e, ast.Constant) and isinstance(e.value, str) for e in spec.elts):
+            return [e.value for e in spec.elts]
         return None
 
     def find_method(self, cls, name):
@@ -347,6 +400,12 @@ class Repo(object):
                 inner = ast.Call(func=alias, args=args, keywords=kws)
                 ast.copy_location(inner, call)
                 return self._resolve(f, inner, ty)
+            pa = self._partial_alias(f, fn.id)
+            if pa is not None:
+                # `g = partial(F, a.., k=v..)` bound once, then `g(b.., m=w..)` is F(a.., b.., k=v.., m=w..)
+                inner = ast.Call(func=pa.args[0], args=list(pa.args[1:]) + list(args), keywords=list(pa.keywords) + list(kws))
+                ast.copy_location(inner, call)
+                return self._resolve(f, inner, ty)
             nested = self.nested_funcs(f).get(fn.id)
             if nested is not None:
                 return nested, 'func', args, kws
@@ -390,6 +449,17 @@ class Repo(object):
             return vals[0].args[0]
         return None
 
+    def _partial_alias(self, f, name):
+        vals = []
+        for n in ast.walk(f.node):
+            if isinstance(n, ast.Assign) and any(isinstance(t, ast.Name) and t.id == name for t in n.targets):
+                vals.append(n.value)
+        if len(vals) == 1 and isinstance(vals[0], ast.Call) and U(vals[0].func) in ('partial', 'functools.partial') \
+                and vals[0].args and not any(isinstance(a, ast.Starred) for a in vals[0].args) \
+                and all(k.arg for k in vals[0].keywords):
+            return vals[0]
+        return None
+
     def nested_funcs(self, f):
         """functions defined directly inside f's body (closures): name -> FuncInfo (outer = f)"""
         k = id(f)
@@ -422,23 +492,38 @@ class Repo(object):
         return out
 
     def _splice_starred(self, f, args):
-        """`g(a, *shared, b)` where `shared` is a local bound exactly once, at the top level of f, to a tuple/list
-        display: the elements are the arguments"""
+        """`g(a, *pack, b)`, `g(a, *(pack + (x,)))`: a pack is a local bound exactly once in f to a tuple/list display
+        (possibly a concatenation of such) and never mutated; its elements are the arguments"""
         if not any(isinstance(a, ast.Starred) for a in args):
             return args
-        out = []
-        for a in args:
-            if isinstance(a, ast.Starred) and isinstance(a.value, ast.Name):
-                nm = a.value.id
+
+        def elements(e, depth=0):
+            if depth > 4:
+                return None
+            if isinstance(e, (ast.Tuple, ast.List)):
+                if any(isinstance(x, ast.Starred) for x in e.elts):
+                    return None
+                return list(e.elts)
+            if isinstance(e, ast.BinOp) and isinstance(e.op, ast.Add):
+                l, r = elements(e.left, depth + 1), elements(e.right, depth + 1)
+                return l + r if l is not None and r is not None else None
+            if isinstance(e, ast.Name):
+                nm = e.id
                 stores = [n for n in ast.walk(f.node) if isinstance(n, ast.Name) and n.id == nm and isinstance(n.ctx, (ast.Store, ast.Del))]
-                top = [st for st in f.node.body if isinstance(st, ast.Assign) and len(st.targets) == 1
-                       and isinstance(st.targets[0], ast.Name) and st.targets[0].id == nm
-                       and isinstance(st.value, (ast.Tuple, ast.List)) and not any(isinstance(e, ast.Starred) for e in st.value.elts)]
+                defs = [st for st in ast.walk(f.node) if isinstance(st, ast.Assign) and len(st.targets) == 1
+                        and isinstance(st.targets[0], ast.Name) and st.targets[0].id == nm]
                 mutated = any(isinstance(n, ast.Attribute) and isinstance(n.value, ast.Name) and n.value.id == nm
                               and n.attr in ('append', 'extend', 'insert', 'pop', 'remove', 'clear', 'sort', 'reverse')
                               for n in ast.walk(f.node))
-                if len(stores) == 1 and len(top) == 1 and not mutated and nm not in f.params:
-                    out.extend(top[0].value.elts)
+                if len(stores) == 1 and len(defs) == 1 and not mutated and nm not in f.params:
+                    return elements(defs[0].value, depth + 1)
+            return None
+        out = []
+        for a in args:
+            if isinstance(a, ast.Starred):
+                el = elements(a.value)
+                if el is not None:
+                    out.extend(el)
                     continue
             out.append(a)
         return out
